@@ -67,6 +67,10 @@ def make_desc(job):
                         "other_run": r.random() < 0.3}
         if r.random() < 0.3:
             d["ambient"] = {"np": r.randrange(1, 50), "py": 0, "reseed": False, "other_run": False}
+        rmt = random.Random(H(seed, "c07-multitask"))
+        if rmt.random() < 0.15:
+            # the same seeded serial runs, launched as trials of the multitask utility
+            d["via_multitask"] = {"n_trials": rmt.choice([2, 2, 3]), "n_jobs": rmt.choice([2, 3])}
     elif pid == "C08":
         fam = r.choice(["cont_multi", "cont_multi", "cont_mixed", "multi_objective", "discrete", "binary"])
         d["task"] = scenario.gen_task(r, fam)
@@ -89,6 +93,12 @@ def make_desc(job):
                 hist.append({"task": scenario.other_objective(r, d["task"])})
             else:
                 hist.append({"task": scenario.gen_task(r, r.choice(["cont_multi", "cont_mixed", "cont_single"]))})
+        # earlier runs may have used another solver mode (an instance driven by Multitask, or interactively)
+        rm = random.Random(H(seed, "c08-history-modes"))
+        for h in hist:
+            if rm.random() < 0.4:
+                h["mode"] = rm.choice(["thread", "process"])
+                h["workers"] = rm.choice([1, 2, 4, 8])
         d["ops"] = hist
         d["abort_first_at"] = r.randrange(1, 40) if r.random() < 0.15 else None
         if r.random() < 0.35:
@@ -118,6 +128,8 @@ def make_desc(job):
                                                           stop_opts=False)
         d["faults"] = scenario.gen_faults(r, "serial", 0, p_none=0.6, kinds=scenario.STREAM_FAULTS)
         d["debug"] = r.random() < 0.12
+        if random.Random(H(seed, "c12-raw-direction")).random() < 0.1:
+            d["task"]["minmax_raw"] = True
         ob = d["task"]["objective"]
         if "multi" not in ob and r.random() < 0.15:
             lows, highs, _ = scenario.var_ranges(d["task"]["vars"])
@@ -285,6 +297,31 @@ def run_c07(desc, stats):
             out.append({"cls": [opt, "diverged", src],
                         "msg": f"two serial runs with seed={desc['task']['seed']} differ ({diff}); draws from the "
                                f"stdlib generator during run A: {a.py_draws}; ambient perturbation {amb}"})
+        vm = desc.get("via_multitask")
+        if vm and diff is None:
+            import pyvolutionary as pv
+            s.sim.obs.setdefault("cpu_count", 4)
+            try:
+                mt = pv.Multitask(algorithms=(_cls(desc)(_cfg(desc)),), tasks=(tasks.build_task(desc["task"]),),
+                                  modes=("serial",))
+                mt.execute(n_trials=vm["n_trials"], n_jobs=vm["n_jobs"])
+                sols = [c["solution"] for c in mt._df2[0].iloc[:, 0]]
+                s.sim.count("multitask_trials_compared", len(sols))
+                for k, sol in enumerate(sols):
+                    dk = first_difference(a.dump, engine_p.dump_result(sol))
+                    if dk is not None:
+                        out.append({"cls": [opt, "diverged", "multitask_trial"],
+                                    "msg": f"trial {k + 1} of Multitask.execute (serial mode, task seed "
+                                           f"{desc['task']['seed']}) differs from the plain seeded serial run: {dk}"})
+                        break
+            except kernel.SimAbort:
+                raise
+            except BaseException as e:
+                engine_g.raise_if_harness_fault(e)
+                out.append({"cls": [opt, "diverged", "outcome"],
+                            "msg": f"the plain seeded run returns a result, the same run as a Multitask trial raises "
+                                   f"{type(e).__name__}: {str(e)[:120]}"})
+            stats["digest"] = s.sim.digest()
     return out
 
 
@@ -308,7 +345,9 @@ def run_c08(desc, stats):
         for i, op in enumerate(desc.get("ops") or []):
             t = task_obs if op["task"] == "same" else tasks.build_task(op["task"])
             s.set_ambient(("hist", i))
-            h = s.call(x, t, entropy_label=("hist", i))
+            h = s.call(x, t, mode=op.get("mode", "serial"), workers=op.get("workers"), entropy_label=("hist", i))
+            if op.get("mode", "serial") != "serial":
+                s.sim.count("history_runs_pooled")
             if h.injected:
                 aborted = True
             elif h.exc is None:
